@@ -57,6 +57,9 @@ pub struct Dg {
     pub inputs: Vec<usize>,
     pub outputs: Vec<usize>,
     pub scalar: Sc,
+    /// the dyadic coefficients of a quizx scalar read as an exact ring element,
+    /// whether or not they were flagged approximate (None for harness-built diagrams)
+    pub scalar_dyadic: Option<Zw>,
 }
 
 #[derive(Clone, Debug, PartialEq)]
@@ -173,7 +176,7 @@ impl Dg {
             let (a, b) = z.to_c64();
             Sc::Float(a, b)
         } else {
-            Sc::Exact(z)
+            Sc::Exact(z.clone())
         };
         Dg {
             verts,
@@ -181,6 +184,7 @@ impl Dg {
             inputs: s.inputs.clone(),
             outputs: s.outputs.clone(),
             scalar,
+            scalar_dyadic: Some(z),
         }
     }
 
